@@ -332,6 +332,13 @@ def run_case(case, exec_seed=None, exec_tape=None):
     if case.get("output_fns"):
         w = sub_workload(w_full, case["output_fns"])  # oracles are about the sub-pipeline that actually runs
         probes["output_names"] = 1
+        try:
+            with C.new_sim(Tape(recorded=[]), preempt=0.0):
+                build_pipeline(w_full)  # the tree refuses to construct some valid pipelines (C01's business)
+        except Exception:  # noqa: BLE001
+            out["discarded"] = True
+            out["exec_tape"] = []
+            return out
     ref = c05.reference(w)
     if ref.error is not None:
         out["discarded"] = True
